@@ -490,7 +490,7 @@ func (e *Exec) doOpen(s Step) {
 	c.inc++
 	e.tabSeq++
 	c.table = fmt.Sprintf("t%d_%s_%d", scnSeq, c.id, e.tabSeq)
-	e.emit("open_start", s, map[string]interface{}{"mode": mode})
+	e.emit("open_start", s, map[string]interface{}{"mode": mode, "when": s.num("when", 100+e.stepIdx)})
 	_, err = e.exec(c, e.createSQL(c, s, mode))
 	out := map[string]interface{}{"mode": mode, "outcome": classifyErr(err), "err": errStr(err), "when": s.num("when", 100+e.stepIdx), "perm": s.num("perm", -1)}
 	if err == nil {
@@ -526,7 +526,7 @@ func (e *Exec) doOpen(s Step) {
 func (e *Exec) doRefresh(s Step) {
 	c := e.client(s.str("c"))
 	e.setPlanForOpen(c, s)
-	e.emit("open_start", s, map[string]interface{}{"mode": "refresh"})
+	e.emit("open_start", s, map[string]interface{}{"mode": "refresh", "when": s.num("when", 100+e.stepIdx)})
 	_, err := e.query(c, "select s3db_refresh(?)", c.table)
 	out := map[string]interface{}{"mode": c.mode, "refresh": 1, "outcome": classifyErr(err), "err": errStr(err), "when": s.num("when", 100+e.stepIdx), "perm": s.num("perm", -1)}
 	if err == nil {
@@ -611,6 +611,14 @@ func (e *Exec) doStmt(s Step) {
 	}
 	out["assigned"] = cl
 	out["vals"] = vals
+	// a value that cannot be stored (TEXT that is not UTF-8) may be refused
+	unstorable := strings.HasPrefix(s.str("key"), "u:")
+	for _, v := range cols {
+		if strings.HasPrefix(v, "u:") {
+			unstorable = true
+		}
+	}
+	out["unstorable"] = unstorable
 	if !s.has("keep_wt") {
 		if err := e.setWriteTime(c, s.num("wt", -1)); err != nil {
 			out["outcome"] = "error"
